@@ -320,6 +320,9 @@ def run(ck):
     rep = tables.main(os.path.join(common.LEAN, "DS", "Gen"), os.path.join(common.LEAN, "DS", "Gen", "tables_report.json"))
     translated = {s["number"] for s in rep["settings"]}
     ok, info = ck.lean_obligations("DS.Props.C05")
+    ok_p, info_p = ck.lean_obligations("DS.Props.C05Partition")
+    if not ok_p:
+        ok, info = False, info_p
     allstrata = strata.all_strata(sgs.SpaceGroupList)
     lines, expects, owners = [], [], []
     kinds = {}
